@@ -147,6 +147,39 @@ def to_number(value: JSValue) -> Union[int, float]:
     return float("nan")
 
 
+def js_pow(base: Union[int, float], exponent: Union[int, float]) -> Union[int, float]:
+    """JavaScript exponentiation (the ** operator and Math.pow)."""
+    nan = float("nan")
+    if math.isnan(exponent):
+        return nan
+    if exponent == 0:
+        return 1
+    if math.isnan(base):
+        return nan
+    if math.isinf(exponent) and abs(base) == 1:
+        return nan
+    if isinstance(base, int) and isinstance(exponent, int) and 0 < exponent <= 64:
+        result = base**exponent
+        if abs(result) <= 2**53:
+            return result
+    exponent_is_odd = (
+        not math.isinf(exponent)
+        and abs(exponent) < 2**53
+        and float(exponent).is_integer()
+        and int(exponent) % 2 == 1
+    )
+    try:
+        return math.pow(base, exponent)
+    except OverflowError:
+        return float("-inf") if base < 0 and exponent_is_odd else float("inf")
+    except ValueError:
+        if base == 0:
+            # zero raised to a negative power
+            negative_zero = math.copysign(1, base) < 0
+            return float("-inf") if negative_zero and exponent_is_odd else float("inf")
+        return nan  # negative base with a non-integer exponent
+
+
 def to_string(value: JSValue) -> str:
     """Convert a JavaScript value to string."""
     if value is UNDEFINED:
